@@ -93,11 +93,150 @@ def analyse(ops):
     return wf, nonlifo, forget
 
 
+# ------------------------------------------------------------------------------ recorder population
+# WHERE a recorder double lives is a dimension of the case the Coq model does not see (recorders are identities there):
+# recs = {"<rid>": ["w", inner_rid] | ["z", type 0..3] | ["s", slot, view type 0/1]}; a rid without an entry has a leaked Box
+# of its own.  "w": a repr(C) decorator whose first field is the wrapped double (same data address, other vtable);
+# "z": a zero-sized recorder type (all boxed ZSTs share one address); "s": reusable storage: a later rid of the slot is
+# constructed, at its first I/W/G, at the address its dead predecessor occupied (same or other vtable).
+def place_ok(recs):
+    inner, ztypes = set(), set()
+    for r, p in recs.items():
+        if p[0] == "w":
+            i = str(p[1])
+            if i == r or i in recs or i in inner:
+                return False
+            inner.add(i)
+        elif p[0] == "z":
+            if p[1] in ztypes or not 0 <= p[1] < 4:
+                return False
+            ztypes.add(p[1])
+        elif p[0] != "s":
+            return False
+    return not any(r in inner for r in recs)
+
+
+def twin(recs, a, b):
+    """two DIFFERENT recorders at one address (at the same or at different times)"""
+    if a == b:
+        return False
+    pa, pb = recs.get(str(a)), recs.get(str(b))
+    if pa and pa[0] == "w" and pa[1] == b or pb and pb[0] == "w" and pb[1] == a:
+        return True
+    if pa and pb and pa[0] == pb[0] == "z":
+        return True
+    return bool(pa and pb and pa[0] == pb[0] == "s" and pa[1] == pb[1])
+
+
+class Mirror:
+    """python transcription of coq/C01/Model.v (lower + step), used to know which recorders the thread-local slots and the
+    saved prev pointers can still name (slot reuse is only allowed for a predecessor no pointer names any more, so that
+    model and implementation keep agreeing inside the known classes too), and to measure the population dimension."""
+
+    def __init__(self, recs):
+        self.recs = recs
+        self.nxt = 0
+        self.tls, self.frames, self.guards, self.fgids = {}, {}, {}, set()
+        self.dead, self.glob = set(), None
+        self.occ = {}
+        self.ok = True
+        self.twin_active = {}
+        self.stat = dict(twin_nestings=0, emissions_inside_twin_nesting=0, same_recorder_nestings=0, slot_reuses=0)
+
+    def reachable(self):
+        rs = set(v for v in self.tls.values() if v is not None)
+        rs |= set(g[2] for g in self.guards.values() if g[3] == "A" and g[2] is not None)
+        if self.glob is not None:
+            rs.add(self.glob)
+        return rs
+
+    def installable(self, r):
+        p = self.recs.get(str(r))
+        if not p or p[0] != "s":
+            return True
+        o = self.occ.get(p[1])
+        return o is None or o == r or (o in self.dead and o not in self.reachable())
+
+    def activate(self, r):
+        p = self.recs.get(str(r))
+        if p and p[0] == "s":
+            if not self.installable(r):
+                self.ok = False
+            if self.occ.get(p[1]) not in (None, r):
+                self.stat["slot_reuses"] += 1
+            self.occ[p[1]] = r
+
+    def drop(self, t, g):
+        x = self.guards.get(g)
+        if x and x[0] == t and x[3] == "A":
+            self.tls[t] = x[2]
+            x[3] = "D"
+            self.twin_active[t] = False
+
+    def apply(self, o):
+        k = o[0]
+        if k in ("I", "W"):
+            t, r = o[1], o[2]
+            self.activate(r)
+            cur = self.tls.get(t)
+            if cur is not None and cur == r:
+                self.stat["same_recorder_nestings"] += 1
+            self.twin_active[t] = cur is not None and twin(self.recs, cur, r)
+            if self.twin_active[t]:
+                self.stat["twin_nestings"] += 1
+            self.guards[self.nxt] = [t, r, cur, "A"]
+            self.tls[t] = r
+            if k == "W":
+                self.frames.setdefault(t, []).insert(0, self.nxt)
+                self.fgids.add(self.nxt)
+            self.nxt += 1
+        elif k == "D":
+            if o[2] not in self.fgids:
+                self.drop(o[1], o[2])
+        elif k == "F":
+            x = self.guards.get(o[2])
+            if o[2] not in self.fgids and x and x[0] == o[1] and x[3] == "A":
+                x[3] = "F"
+        elif k == "X":
+            fs = self.frames.get(o[1], [])
+            if fs:
+                self.drop(o[1], fs.pop(0))
+        elif k == "P":
+            fs = self.frames.get(o[1], [])
+            self.frames[o[1]] = []
+            for g in fs:
+                self.drop(o[1], g)
+        elif k == "B":
+            self.dead.add(o[1])
+        elif k == "G":
+            self.activate(o[1])
+            if self.glob is None:
+                self.glob = o[1]
+        elif k == "E":
+            if self.twin_active.get(o[1]):
+                self.stat["emissions_inside_twin_nesting"] += 1
+
+
+def study(c):
+    """-> (valid placement and slot discipline, stats)"""
+    recs = c.get("recs", {})
+    m = Mirror(recs)
+    for o in c["ops"]:
+        m.apply(o)
+    return place_ok(recs) and m.ok, m.stat
+
+
+def case_ok(c):
+    return analyse(c["ops"])[0] and study(c)[0]
+
+
 class Gen:
     """incremental generator of well-formed programs (tracks what the next operation may be)"""
 
-    def __init__(self, rng, nthreads, nrec, lifo):
+    def __init__(self, rng, nthreads, nrec, lifo, recs=None):
         self.rng, self.nt, self.nr, self.lifo = rng, nthreads, nrec, lifo
+        self.recs = recs or {}
+        self.m = Mirror(self.recs)
         self.ops = []
         self.nxt = 0
         self.stack = {t: [] for t in range(nthreads)}   # alive guards of t, innermost first: (gid, rid, is_frame)
@@ -105,13 +244,33 @@ class Gen:
         self.live = {r: True for r in range(nrec)}
         self.glob = None
 
+    def push(self, o):
+        self.ops.append(o)
+        self.m.apply(o)
+
+    def case(self):
+        return dict(ops=self.ops, recs=self.recs) if self.recs else dict(ops=self.ops)
+
+    def pick_rec(self, t, cands):
+        """recorder for an Install/Enter on t: biased towards the address twins of the recorder currently in scope, and
+        towards that very recorder (nesting the same recorder twice)"""
+        rng = self.rng
+        cur = self.m.tls.get(t)
+        if cur is not None:
+            tw = [r for r in cands if twin(self.recs, cur, r)]
+            if tw and rng.chance(1, 2):
+                return rng.pick(tw)
+            if cur in cands and rng.chance(1, 10):
+                return cur
+        return rng.pick(cands)
+
     def emit(self, t=None):
         rng = self.rng
         t = rng.below(self.nt) if t is None else t
         site = rng.below(len(FORMS))
         a = dict(n=rng.pick(NAMES), v=[rng.pick(VALS), rng.pick(VALS)], d=rng.pick(DESCS), u=rng.below(len(UNITS)),
                  l=[[rng.pick(KEYS), rng.pick(VALS)] for _ in range(rng.weighted([(3, 0), (4, 1), (3, 2), (1, 3)]))])
-        self.ops.append(["E", t, site, a])
+        self.push(["E", t, site, a])
 
     def borrowed(self, r):
         return any(x[1] == r for st in self.stack.values() for x in st) or self.glob == r
@@ -130,10 +289,11 @@ class Gen:
                           (0 if self.lifo else 3, "F")])
         liverecs = [r for r in range(self.nr) if self.live[r]]
         if k in ("I", "W"):
-            if not liverecs or sum(len(s) for s in self.stack.values()) >= 8:
+            cands = [r for r in liverecs if self.m.installable(r)]
+            if not cands or sum(len(s) for s in self.stack.values()) >= 8:
                 return False
-            r = rng.pick(liverecs)
-            self.ops.append([k, t, r])
+            r = self.pick_rec(t, cands)
+            self.push([k, t, r])
             st.insert(0, (self.nxt, r, k == "W"))
             self.nxt += 1
         elif k == "D":
@@ -147,21 +307,21 @@ class Gen:
                 older = [y for y in cands if y is not st[0]]
                 if older:
                     x = rng.pick(older)          # an older guard while a younger one is alive
-            self.ops.append(["D", t, x[0]])
+            self.push(["D", t, x[0]])
             st.remove(x)
         elif k == "F":
             cands = [x for x in st if not x[2]]
             if not cands:
                 return False
             x = rng.pick(cands)
-            self.ops.append(["F", t, x[0]])
+            self.push(["F", t, x[0]])
             st.remove(x)
             self.leaked.append(x)
         elif k == "X":
             fr = [x for x in st if x[2]]
             if not fr or (self.lifo and not st[0][2]):
                 return False
-            self.ops.append(["X", t])
+            self.push(["X", t])
             st.remove(fr[0])
         elif k == "P":
             fr = [x for x in st if x[2]]
@@ -170,7 +330,7 @@ class Gen:
                 nfr = len(fr)
                 if not all(x[2] for x in st[:nfr]):
                     return False
-            self.ops.append(["P", t])
+            self.push(["P", t])
             for x in fr:
                 st.remove(x)
         elif k == "B":
@@ -180,8 +340,16 @@ class Gen:
             if not cands or (not used and rng.chance(2, 3)):
                 return False
             r = rng.pick(used or cands)
-            self.ops.append(["B", r])
+            self.push(["B", r])
             self.live[r] = False
+            # a recorder of the same slot can now be constructed where r was
+            mates = [q for q in liverecs if q != r and twin(self.recs, q, r) and self.recs.get(str(q), [None])[0] == "s" and self.m.installable(q)]
+            if mates and rng.chance(2, 3) and sum(len(s) for s in self.stack.values()) < 8:
+                q, t2, k2 = rng.pick(mates), rng.below(self.nt), rng.pick(["I", "W"])
+                self.push([k2, t2, q])
+                self.stack[t2].insert(0, (self.nxt, q, k2 == "W"))
+                self.nxt += 1
+                self.emit(t2)
             # a dangling pointer is only visible through an emission: make one likely
             if rng.chance(2, 3):
                 self.emit(rng.below(self.nt))
@@ -190,10 +358,10 @@ class Gen:
         return True
 
     def set_global(self):
-        liverecs = [r for r in range(self.nr) if self.live[r]]
+        liverecs = [r for r in range(self.nr) if self.live[r] and self.m.installable(r)]
         if liverecs:
             r = self.rng.pick(liverecs)
-            self.ops.append(["G", r])
+            self.push(["G", r])
             if self.glob is None:
                 self.glob = r
 
@@ -226,21 +394,33 @@ class C01(Prop):
     level_note = ("wf_prog is an assumption about which programs exist; it is enforced by rustc through the signature of "
                   "set_default_local_recorder/LocalRecorderGuard<'a> and checked each run by compiling the negative programs of "
                   "harness/negative/c01 (a negative program that compiles is a VIOLATION). Four representative shapes, not a proof about the type system. "
+                  "Recorder identity: the doubles include different recorders that share a data address (decorator/decorated, zero-sized types, "
+                  "storage reuse) and recorders of one type at different addresses; the model identifies recorders by id only, so the "
+                  "correspondence run checks that neither address nor type decides where an emission goes (evaluated per run, not proved). "
                   "The use-after-scope itself is replaced by a flag on leaked recorder doubles (no real dangling dereference); the unsafe transmute is "
                   "not modelled. The macro layer is modelled per token class of each argument position (literal / constant expression / computed "
                   "String / label collection), not by parsing macro_rules!; `spelled` (Spec) and `expand` (Model) are two readings of the same "
                   "call-site description, proved equal. Label collections that reorder (maps) are not in the table. A panic is a scripted "
                   "panic_any caught at the worker's top level; guards made by set_default_local_recorder are kept in a per-thread table outside "
                   "all closures, so unwinding drops only with_local_recorder's own guards.")
-    rule = ("random well-formed programs (2-29 ops) on 1-4 threads over <=5 recorder doubles, <=8 open guards: 60% generated under the LIFO "
+    rule = ("random well-formed programs (2-29 ops) on 1-4 threads over <=6 recorder doubles, <=8 open guards: 60% generated under the LIFO "
             "discipline (Install/DropGuard/Enter/Exit/Panic nestings), 40% with arbitrary drop order, guards kept past their closure and "
             "mem::forget (about 22% of all programs end up in a known class), EndBorrow usually followed by an emission, ~5% with SetGlobal "
             "(own process), plus 5% directed shapes around the two findings and their LIFO neighbours; every Emit picks one of 204 macro call "
-            "sites and small-alphabet arguments (empty strings, non-ASCII, duplicate/unsorted label keys); corpus first; "
+            "sites and small-alphabet arguments (empty strings, non-ASCII, duplicate/unsorted label keys); recorder population (a dimension "
+            "the model does not see; 65% of programs): a repr(C) decorator double whose first field is the wrapped double (one address, two "
+            "vtables), up to 4 distinct zero-sized recorder types (boxed at one address), 2-3 doubles constructed one after the other in the "
+            "same storage (after the predecessor's borrow ended and no pointer names it), the rest in boxes of their own (one type, distinct "
+            "addresses); Install/Enter prefers an address twin of the recorder in scope (1/2) or that recorder itself (1/10); plus 5% directed "
+            "twin shapes (nested either way, side by side on two threads, reuse, self-nesting); distribution in coverage.recorder_population; "
+            "corpus first; "
             "non-trivial = at least one emission reached a recorder double; distinct = distinct (program, observed log)")
     assumptions = ["a dispatch to a recorder whose borrow ended is observed through the double's cleared in-scope flag, not executed as a real use-after-free",
                    "workers execute the global operation list in order (commands over channels), so the interleaving is the program order",
-                   "RecorderOnceCell::set installs only the first recorder (C02)"]
+                   "RecorderOnceCell::set installs only the first recorder (C02)",
+                   "storage of a recorder double is reused only for a predecessor whose borrow ended and that no thread-local slot or live guard's "
+                   "saved pointer names in the model (vlib/c01.py Mirror), so that a dangling dispatch inside the known classes still reaches the "
+                   "double the model names"]
     trusted_extra = ["rustc 1.74.0 borrow/Send checking: wf_prog (no EndBorrow while a live guard borrows the recorder; guard operations only on "
                      "the installing thread) is tied to the code by the compile-fail engine harness/negative/c01 (4 programs that must be "
                      "rejected with E0597/E0515/E0505/E0277 against /repo, 1 positive control), run on every check",
@@ -249,12 +429,32 @@ class C01(Prop):
                      "std::sync::mpsc, std::thread, catch_unwind (exercised, not modelled)"]
 
     # ------------------------------------------------------------------ generator
+    def placements(self, r, nrec):
+        """where the nrec doubles of a program live (see `recorder population` above)"""
+        recs = {}
+        if r.chance(35, 100):
+            return recs
+        free = r.shuffle(list(range(nrec)))
+        if len(free) >= 2 and r.chance(1, 2):
+            w, i = free.pop(), free.pop()
+            recs[str(w)] = ["w", i]
+        if len(free) >= 2 and r.chance(1, 3):
+            slot = r.below(2)
+            for _ in range(r.range(2, min(3, len(free)))):
+                recs[str(free.pop())] = ["s", slot, r.below(2)]
+        ztypes = r.shuffle([0, 1, 2, 3])
+        for q in list(free):
+            if ztypes and r.chance(1, 2):
+                recs[str(q)] = ["z", ztypes.pop()]
+        return recs
+
     def gen(self, rng, n):
         cases = []
         for i in range(n):
             r = rng.fork()
             lifo = r.chance(6, 10)
-            g = Gen(r, r.range(1, 4), r.range(1, 5), lifo)
+            nt, nrec = r.range(1, 4), r.range(1, 6)
+            g = Gen(r, nt, nrec, lifo, self.placements(r, nrec))
             nops = r.range(2, 24)
             with_global = r.chance(1, 20)
             gpos = r.below(nops) if with_global else -1
@@ -267,9 +467,10 @@ class C01(Prop):
             if with_global and r.chance(1, 4):
                 g.set_global()
                 g.emit()
-            cases.append(dict(ops=g.ops))
-        # directed stream: the shapes around the known findings and their LIFO neighbours
+            cases.append(g.case())
+        # directed stream 1: the shapes around the known findings and their LIFO neighbours
         m = max(1, n // 20)
+        plain = dict(n="a", v=["", ""], d="", u=0, l=[])
         for i in range(m):
             r = rng.fork()
             t = r.below(2)
@@ -277,22 +478,80 @@ class C01(Prop):
             g = Gen(r, 2, 3, False)
             shape = i % 5
             if shape == 0:
-                g.ops += [["I", t, a], ["I", t, b], ["D", t, 0], ["D", t, 1]]
+                pre = [["I", t, a], ["I", t, b], ["D", t, 0], ["D", t, 1]]
             elif shape == 1:
-                g.ops += [["I", t, a], ["I", t, b], ["D", t, 1], ["D", t, 0]]
+                pre = [["I", t, a], ["I", t, b], ["D", t, 1], ["D", t, 0]]
             elif shape == 2:
-                g.ops += [["I", t, a], ["F", t, 0]]
+                pre = [["I", t, a], ["F", t, 0]]
             elif shape == 3:
-                g.ops += [["W", t, a], ["I", t, b], ["X", t], ["D", t, 1]]
+                pre = [["W", t, a], ["I", t, b], ["X", t], ["D", t, 1]]
             else:
-                g.ops += [["W", t, a], ["W", t, b], ["E", t, r.below(len(FORMS)), dict(n="a", v=["", ""], d="", u=0, l=[])], ["P", t]]
-            g.ops.append(["B", a])
-            if b != a:
-                g.ops.append(["B", b])
+                pre = [["W", t, a], ["W", t, b], ["E", t, r.below(len(FORMS)), plain], ["P", t]]
+            for o in pre + [["B", a]] + ([["B", b]] if b != a else []):
+                g.push(o)
             g.emit(t)
             g.emit(1 - t)
-            if analyse(g.ops)[0]:
-                cases.append(dict(ops=g.ops))
+            if case_ok(g.case()):
+                cases.append(g.case())
+        # directed stream 2: two DIFFERENT recorders at one address, nested on one thread / side by side on two threads /
+        # one after the other in the same storage; and the same recorder nested in itself
+        for i in range(m):
+            r = rng.fork()
+            t = r.below(2)
+            shape = i % 6
+            a, b, c = r.shuffle([0, 1, 2])
+            if shape in (0, 1):
+                recs = {str(a): ["w", b]}
+            elif shape == 2:
+                recs = {str(a): ["z", r.below(4)]}
+                recs[str(b)] = ["z", (recs[str(a)][1] + 1 + r.below(3)) % 4]
+            elif shape == 3:
+                recs = {str(a): ["s", 0, r.below(2)], str(b): ["s", 0, r.below(2)]}
+            elif shape == 4:
+                recs = {str(a): ["w", b], str(c): ["z", 0]}
+            else:
+                recs = {}
+            g = Gen(r, 2, 3, True, recs)
+            x, y = (a, b) if r.chance(1, 2) else (b, a)
+            op = r.pick(["W", "I"])
+            if shape == 3:          # y constructed where the dead x was
+                pre = [[op, t, x], "e", "close", ["B", x], [op, t, y], "e", "close", "e"]
+            elif shape == 5:        # the same recorder nested in itself
+                pre = [[op, t, x], [op, t, x], "e", "close", "e", "close", "e"]
+            elif shape == 1:        # twins side by side on two threads
+                pre = [[op, t, x], [op, 1 - t, y], "e", "e2", "close2", "e", "close"]
+            else:                   # twins nested on one thread (decorator outside or inside)
+                pre = [[op, t, x], "e", [op, t, y], "e", "close", "e", "close", "e"]
+            gids = {}
+            for o in pre:
+                if o in ("e", "e2"):
+                    g.emit(t if o == "e" else 1 - t)
+                elif o in ("close", "close2"):
+                    tt = t if o == "close" else 1 - t
+                    g.push(["X", tt] if op == "W" else ["D", tt, gids[tt].pop()])
+                else:
+                    if o[0] in ("I", "W"):
+                        gids.setdefault(o[1], []).append(g.m.nxt)
+                    g.push(o)
+            if case_ok(g.case()):
+                cases.append(g.case())
+        if getattr(self, "_pop_stats", None) is None:
+            st = dict(programs=len(cases), plain=0, with_decorator=0, with_zst=0, with_two_zst=0, with_shared_slot=0,
+                      twin_nestings=0, emissions_inside_twin_nesting=0, same_recorder_nestings=0, slot_reuses=0,
+                      programs_with_twin_nesting=0)
+            for c in cases:
+                recs = c.get("recs", {})
+                kinds = [p[0] for p in recs.values()]
+                st["plain"] += not recs
+                st["with_decorator"] += "w" in kinds
+                st["with_zst"] += "z" in kinds
+                st["with_two_zst"] += kinds.count("z") >= 2
+                st["with_shared_slot"] += kinds.count("s") >= 2
+                _, ms = study(c)
+                for k2, v in ms.items():
+                    st[k2] += v
+                st["programs_with_twin_nesting"] += ms["twin_nestings"] > 0
+            self._pop_stats = st
         return cases
 
     # ------------------------------------------------------------------ implementation side
@@ -360,6 +619,11 @@ class C01(Prop):
         ctx["coverage"]["compile_fail_programs_rejected"] = n_rej
         ctx["coverage"]["compile_fail_programs"] = [n for n, e, _ in progs if e != "ok"]
         ctx["coverage"]["compile_positive_controls"] = [n for n, e, _ in progs if e == "ok"]
+        # the recorder-population dimension of the generated programs (the Coq model does not see it)
+        pop = dict(getattr(self, "_pop_stats", None) or {})
+        pop["pairs_of_doubles_at_one_address_observed_by_driver"] = getattr(self, "_same_addr", 0)
+        pop["programs_where_driver_saw_shared_address"] = getattr(self, "_same_addr_cases", 0)
+        ctx["coverage"]["recorder_population"] = pop
         return vio
 
     def evaluate(self, binpath, cases, tier, tag="cases"):
@@ -383,6 +647,8 @@ class C01(Prop):
 
     def impl_line(self, c):
         toks = []
+        for r, p in sorted(c.get("recs", {}).items()):
+            toks.append("R%s:%s" % (r, "w%d" % p[1] if p[0] == "w" else "z%d" % p[1] if p[0] == "z" else "s%d.%d" % (p[1], p[2])))
         for o in c["ops"]:
             k = o[0]
             if k in ("I", "W", "D", "F"):
@@ -397,9 +663,14 @@ class C01(Prop):
 
     def parse_out(self, c, line):
         try:
-            return json.loads(line)
+            d = json.loads(line)
         except ValueError:
             return {"error": line[:200]}
+        if isinstance(d, dict) and "o" in d:
+            self._same_addr = getattr(self, "_same_addr", 0) + d.get("same", 0)
+            self._same_addr_cases = getattr(self, "_same_addr_cases", 0) + (d.get("same", 0) > 0)
+            return d["o"]
+        return d
 
     # ------------------------------------------------------------------ Coq side
     def coq_case(self, c):
@@ -460,7 +731,13 @@ class C01(Prop):
         if "negative" in c:
             return []
         ops = c["ops"]
+        recs = c.get("recs", {})
+
+        def mk(ops2, recs2=recs):
+            return dict(ops=ops2, recs=recs2) if recs2 else dict(ops=ops2)
         cands = []
+        for r in recs:
+            cands.append(mk(ops, {k2: v for k2, v in recs.items() if k2 != r}))
         for i, o in enumerate(ops):
             rest = [list(x) for x in ops[:i] + ops[i + 1:]]
             if o[0] in ("I", "W"):
@@ -469,19 +746,19 @@ class C01(Prop):
                 for x in rest:
                     if x[0] in ("D", "F") and x[2] > g:
                         x[2] -= 1
-            cands.append(dict(ops=rest))
+            cands.append(mk(rest))
         for i, o in enumerate(ops):
             if o[0] == "E":
                 a = o[3]
                 if o[2] != 0:
-                    cands.append(dict(ops=ops[:i] + [["E", o[1], 0, a]] + ops[i + 1:]))
+                    cands.append(mk(ops[:i] + [["E", o[1], 0, a]] + ops[i + 1:]))
                 plain = dict(n="a", v=["", ""], d="", u=0, l=[])
                 if a != plain:
-                    cands.append(dict(ops=ops[:i] + [["E", o[1], o[2], plain]] + ops[i + 1:]))
+                    cands.append(mk(ops[:i] + [["E", o[1], o[2], plain]] + ops[i + 1:]))
             if o[0] == "W":
                 # a with_local_recorder scope as a plain guard
                 pass
-        return [x for x in cands if analyse(x["ops"])[0]]
+        return [x for x in cands if case_ok(x)]
 
 
 PROP = C01()
